@@ -18,6 +18,16 @@ package imagefam
 // The generator draws plain modes, odd permission sets (0000, 0111, 0777, ...) and special
 // bits alone and combined on files and on directory entries (classes mode_*).
 //
+// Absolute entry names: one case in six draws its name styles from "/a", "//a", "/./a", "a"
+// and "./a" (per layer, with per-entry deviations), so that absolute names meet relative
+// ones on files, directory entries, symlinks, whiteouts and opaque markers, overwrite each
+// other and are whited out across layers; some layers also carry an entry for the root itself
+// ("/", "//", "/."). While c04.absolute_entry_name (the views store "/a" under "//a") is a
+// known finding, such a case is marked unpack_only: the views are not compared, the squashed
+// unpacking is (a different code path, which handles absolute names). Two shapes in which
+// the unchanged squashed unpack deviates from the overlay are known findings with narrow
+// predicates (c04.unpack_mixed_name_forms, c04.unpack_abs_name_relative_requirer).
+//
 // Tolerances (each measured as a class, none silently dropped):
 //   - Open of an absent path may return a handle whose Stat and Read fail with not-exist
 //     (that defect belongs to C17: c17.open_whiteout); Stat and the listings must still agree.
@@ -67,6 +77,40 @@ type c04Case struct {
 	// (documented: "larger files are ignored"). The generator only puts such files at paths
 	// that no other entry of the image touches.
 	SizeLimit int `json:"size_limit,omitempty"`
+	// UnpackOnly leaves out the comparison of the views: the case carries absolute entry names
+	// ("/a", "//a", "/./a") while c04.absolute_entry_name is a known finding of the VIEWS. The
+	// squashed unpacking is a different code path and is decided against the final overlay.
+	// Only honoured for a case that really has an absolute header name.
+	UnpackOnly bool `json:"unpack_only,omitempty"`
+}
+
+// c04AbsName reports whether the tar header name of the entry is absolute.
+func c04AbsName(e tarimg.Entry) bool { return strings.HasPrefix(e.TarName(), "/") }
+
+// hasAbsName reports whether some entry of the image has an absolute header name.
+func (cs c04Case) hasAbsName() bool {
+	for _, l := range cs.Image.Layers {
+		for _, e := range l.Entries {
+			if c04AbsName(e) {
+				return true
+			}
+		}
+	}
+	return false
+}
+
+// c04WriterAbs returns the name form (absolute or not) of the tar entry that wrote node n;
+// ok is false for implicit directories and the root (no entry of their own).
+func c04WriterAbs(layers []tarimg.Layer, n *overlay.Node) (abs, ok bool) {
+	if n == nil || n.Implicit || n.Layer < 0 || n.Layer >= len(layers) {
+		return false, false
+	}
+	for _, e := range layers[n.Layer].Entries {
+		if op := overlay.Interpret(e); op.Kind == overlay.OpPut && op.Path == n.Path {
+			return c04AbsName(e), true
+		}
+	}
+	return false, false
 }
 
 // dropped reports whether the loader legitimately leaves the entry out of every view: a
@@ -159,7 +203,53 @@ const (
 	// Path-set requirer: a regular file of the final view that is not retained is also part of
 	// an earlier view (same tar entry): pruning the final view deletes the shared backing file.
 	clsRequirerUnlinks = "c04.requirer_unlinks_file_of_earlier_view"
+	// Squashed unpack only. The flattening of the image (mutate.Extract) keys its bookkeeping by
+	// the cleaned header name, so "/p" and "p" are different paths for it. Exactly these shapes
+	// go wrong (plain overwrites do not, the unpacker skips a path that is already on disk):
+	//   - a whiteout written in one name form (absolute / relative) while a lower-layer regular
+	//     file or symlink at or beneath its target was written in the other form (it stays);
+	//   - a non-directory in one form replacing a directory that has a lower-layer regular file
+	//     or symlink beneath it written in the other form (UnpackSquashed fails, or writes it);
+	//   - a directory ENTRY in one form replacing a lower-layer regular file or symlink written
+	//     in the other form (the old file is written).
+	clsUnpackNameForms = "c04.unpack_mixed_name_forms"
+	// Squashed unpack with a path-set requirer: a regular file or symlink of the final view whose
+	// newest entry has an absolute header name is wanted (required, or reached from a required
+	// link) only through the spelling without the leading slash: the unpacker tries "<dir>/p",
+	// the cleaned name ("/p") and "/"+cleaned name, never "p" (the entry is skipped; an older
+	// relatively named entry for the same path is then unpacked in its place).
+	clsUnpackAbsRelRequirer = "c04.unpack_abs_name_relative_requirer"
 )
+
+// c04AbsRelRequired lists the regular files and symlinks of the final view (absolute
+// spelling) that fall into clsUnpackAbsRelRequirer.
+func c04AbsRelRequired(cs c04Case) []string {
+	if !cs.UseRequirer || !cs.hasAbsName() {
+		return nil
+	}
+	cs, _ = cs.effective()
+	n := len(cs.Image.Layers)
+	if n == 0 {
+		return nil
+	}
+	set := map[string]bool{}
+	for _, r := range cs.Require {
+		set[r] = true
+	}
+	final := overlay.Views(cs.Image.Layers)[n-1]
+	reach := retained(final, set, 1<<20)
+	var out []string
+	for _, p := range final.Paths() {
+		nd := final[p]
+		if nd.Kind == overlay.Dir || !reach[p] || set[p] {
+			continue
+		}
+		if abs, ok := c04WriterAbs(cs.Image.Layers, nd); ok && abs {
+			out = append(out, p)
+		}
+	}
+	return out
+}
 
 // c04UnlinkedFiles lists the regular files of the final view that a path-set requirer does
 // not retain although an earlier view offers the same tar entry.
@@ -207,6 +297,12 @@ func c04Features(cs c04Case) (finding map[string]bool, labels map[string]bool, a
 	// removedAt[P] = true once P (a directory with children) was removed by a later layer.
 	removedDirs := map[string]int{}
 	var fileToImplicit []string
+	// the files and links written by the layers below the current one, with their name form
+	type oldEntry struct {
+		p   string
+		abs bool
+	}
+	var earlier []oldEntry
 	for k, l := range cs.Image.Layers {
 		lower := overlay.NewView()
 		if k > 0 {
@@ -216,29 +312,72 @@ func c04Features(cs c04Case) (finding map[string]bool, labels map[string]bool, a
 		putOrder := map[string]int{}
 		var whs, opqs []string
 		whOrder := map[string]int{}
+		// name form (absolute or not) of the layer's entries, by the path they act on
+		putAbs, whAbs := map[string]bool{}, map[string]bool{}
+		absInLayer, relInLayer := false, false
 		for idx, e := range l.Entries {
 			op := overlay.Interpret(e)
-			switch e.Style {
-			case tarimg.StyleDot:
+			if e.Style == tarimg.StyleDot {
 				labels["name_dot_slash"] = true
-			case tarimg.StyleAbs:
+			}
+			abs := c04AbsName(e)
+			if abs {
+				absInLayer = true
 				labels["name_absolute"] = true
 				finding[clsAbsName] = true
+				switch {
+				case e.Style == tarimg.StyleAbs2:
+					labels["name_abs_double_slash"] = true
+				case e.Style == tarimg.StyleAbsDot:
+					labels["name_abs_slash_dot"] = true
+				}
+				if op.Kind == overlay.OpSkip {
+					labels["abs_root_dir_entry"] = true
+				} else {
+					labels["abs_"+e.Kind] = true
+					if overlay.Depth(op.Path) >= 2 {
+						labels["abs_depth_ge2"] = true
+					}
+				}
+			} else {
+				relInLayer = true
 			}
 			switch op.Kind {
 			case overlay.OpPut:
 				puts[op.Path] = e.Kind
 				putOrder[op.Path] = idx
+				putAbs[op.Path] = abs
 			case overlay.OpWhiteout:
 				whs = append(whs, op.Path)
 				whOrder[op.Path] = idx
+				whAbs[op.Path] = abs
 			case overlay.OpOpaque:
 				opqs = append(opqs, op.Path)
 				whOrder[op.Path+"/"] = idx
 			}
 		}
+		if absInLayer && relInLayer {
+			labels["abs_and_relative_names_in_one_layer"] = true
+		}
 		for _, p := range whs {
 			labels["whiteout"] = true
+			// name forms: the whiteout against the files / links that earlier layers wrote at or
+			// beneath its target (also those a layer in between replaced: the flattening keeps
+			// every entry that no newer entry of the SAME name form shadows)
+			for _, old := range earlier {
+				if (old.p == p || overlay.Under(old.p, p)) && old.abs != whAbs[p] {
+					finding[clsUnpackNameForms] = true
+					labels["whiteout_in_other_name_form"] = true
+				}
+			}
+			for q, n := range lower {
+				if (q != p && !overlay.Under(q, p)) || n.Kind == overlay.Dir {
+					continue
+				}
+				if a, ok := c04WriterAbs(cs.Image.Layers, n); ok && a && whAbs[p] {
+					labels["abs_whiteout_hits_abs_entry"] = true
+				}
+			}
 			if _, ok := lower[p]; ok {
 				affectsLower = true
 				labels["whiteout_hits_lower"] = true
@@ -287,7 +426,33 @@ func c04Features(cs c04Case) (finding map[string]bool, labels map[string]bool, a
 		}
 		// type changes and implicit parents
 		for p, kind := range puts {
+			// name forms: a directory entry over a file / link, a non-directory over a directory,
+			// against what earlier layers wrote there in the other form
+			for _, old := range earlier {
+				if old.abs == putAbs[p] {
+					continue
+				}
+				if kind == tarimg.KindDir && old.p == p {
+					finding[clsUnpackNameForms] = true
+					labels["dir_entry_over_nondir_in_other_name_form"] = true
+				}
+				if kind != tarimg.KindDir && overlay.Under(old.p, p) {
+					finding[clsUnpackNameForms] = true
+					labels["nondir_over_dir_with_contents_in_other_name_form"] = true
+				}
+			}
 			if n, ok := lower[p]; ok {
+				// name forms of the new entry and of what it lands on
+				if a, okf := c04WriterAbs(cs.Image.Layers, n); okf {
+					switch {
+					case putAbs[p] && a:
+						labels["abs_over_abs"] = true
+					case putAbs[p]:
+						labels["abs_over_relative"] = true
+					case a:
+						labels["relative_over_abs"] = true
+					}
+				}
 				switch {
 				case n.Kind == overlay.Dir && kind != tarimg.KindDir:
 					affectsLower = true
@@ -361,6 +526,11 @@ func c04Features(cs c04Case) (finding map[string]bool, labels map[string]bool, a
 				finding[clsRecreateLater] = true
 			}
 		}
+		for p, kind := range puts {
+			if kind != tarimg.KindDir {
+				earlier = append(earlier, oldEntry{p, putAbs[p]})
+			}
+		}
 	}
 	// emptied directories: a directory of the final view without children whose subtree held
 	// something in an earlier view.
@@ -409,6 +579,26 @@ func c04Features(cs c04Case) (finding map[string]bool, labels map[string]bool, a
 	}
 	if len(c04UnlinkedFiles(cs)) > 0 {
 		finding[clsRequirerUnlinks] = true
+	}
+	if n := len(views); n > 0 && finding[clsAbsName] {
+		// what the squashed unpacking has to produce from absolutely named entries
+		for _, nd := range views[n-1] {
+			if a, ok := c04WriterAbs(cs.Image.Layers, nd); ok && a {
+				labels["abs_"+string(nd.Kind)+"_in_final_view"] = true
+				if nd.Kind == overlay.File && nd.Layer < n-1 {
+					labels["abs_file_of_lower_layer_in_final_view"] = true
+				}
+			}
+		}
+		if len(c04AbsRelRequired(cs)) > 0 {
+			finding[clsUnpackAbsRelRequirer] = true
+		}
+		if cs.UseRequirer {
+			labels["abs_names_with_requirer"] = true
+		}
+	}
+	if cs.UnpackOnly {
+		labels["unpack_only"] = true
 	}
 	if len(cs.Image.Layers) >= 2 {
 		labels["layers_ge2"] = true
@@ -1015,6 +1205,23 @@ func propC04(cs c04Case) (ev.Outcome, error) {
 			reqSet[r] = true
 		}
 	}
+	if cs.UnpackOnly {
+		// absolute entry names while c04.absolute_entry_name (a defect of the views) is known:
+		// the case decides the squashed unpacking against the final overlay, nothing else
+		if !cs.hasAbsName() {
+			return out, errors.New("harness: unpack_only case without an absolute entry name")
+		}
+		v, berr := cs.Image.Build()
+		if berr != nil {
+			return out, fmt.Errorf("harness: cannot build image: %w", berr)
+		}
+		eff, _ := cs.effective()
+		final := overlay.NewView()
+		if n := len(eff.Image.Layers); n > 0 {
+			final = overlay.Views(eff.Image.Layers)[n-1]
+		}
+		return out, c04CheckUnpack(cs, &loaded{V1: v}, final, requirer, reqSet)
+	}
 	ld, err := loadImageLimit(cs.Image, requirer, c04Depth, cs.maxFileBytes())
 	defer ld.Close()
 	if err != nil {
@@ -1193,6 +1400,8 @@ var (
 	c04FileModes = []int64{0o644, 0o755, 0o600, 0o444, 0o777, 0o640, 0}
 	c04DirModes  = []int64{0o755, 0o700, 0o555, 0o775, 0o711}
 	c04Styles    = []string{tarimg.StylePlain, tarimg.StyleDot, tarimg.StyleAbs}
+	// name styles of the cases that have absolute names in their domain
+	c04AbsStyles = []string{tarimg.StyleAbs, tarimg.StyleAbs, tarimg.StyleAbs, tarimg.StyleAbs2, tarimg.StyleAbsDot, tarimg.StylePlain, tarimg.StyleDot}
 	c04Formats   = []string{"", "pax", "ustar", "gnu"}
 )
 
@@ -1338,10 +1547,22 @@ func c04DrawDropGroup(t *rapid.T, lower overlay.View, k, dropMode int, fresh *in
 func genC04(col *ev.Collector) func(t *rapid.T) c04Case {
 	return func(t *rapid.T) c04Case {
 		cs := c04Case{Leg: "rapid"}
+		// One case in six has absolute entry names in its domain ("/a", "//a", "/./a" next to
+		// relative and "./" names, per layer and per entry). While c04.absolute_entry_name (a
+		// defect of the views) is known, such a case decides the squashed unpacking only.
+		absMode := rapid.IntRange(0, 5).Draw(t, "abs_names") == 0
+		unpackOnly := absMode && col.IsKnown(clsAbsName)
+		styles, styleDev := c04Styles, 1
+		if absMode {
+			styles, styleDev = c04AbsStyles, 3
+		}
 		nLayers := rapid.IntRange(1, 5).Draw(t, "layers")
 		known := func(cs c04Case) string {
 			f, _, _ := c04Features(cs)
 			for _, k := range sortedKeys(f) {
+				if k == clsAbsName && unpackOnly {
+					continue
+				}
 				if col.IsKnown(k) {
 					return k
 				}
@@ -1369,28 +1590,29 @@ func genC04(col *ev.Collector) func(t *rapid.T) c04Case {
 				lo, hi = 2, 8
 			}
 			n := rapid.IntRange(lo, hi).Draw(t, "entries")
-			layerStyle := rapid.SampledFrom(c04Styles).Draw(t, "layer_style")
+			layerStyle := rapid.SampledFrom(styles).Draw(t, "layer_style")
 			parents := rapid.IntRange(0, 2).Draw(t, "parents") // 0 none, 1 all, 2 some
 			slash := rapid.Bool().Draw(t, "dir_slash")
-			tryAdd := func(e tarimg.Entry) bool {
+			// tryAdd returns "" when the entry was added, else why not (a known class).
+			tryAdd := func(e tarimg.Entry) string {
 				L.Entries = append(L.Entries, e)
 				if !overlay.Consistent(*L) {
 					L.Entries = L.Entries[:len(L.Entries)-1]
-					return false
+					return "inconsistent"
 				}
 				if cl := known(cs); cl != "" {
 					col.Excluded(cl)
 					L.Entries = L.Entries[:len(L.Entries)-1]
-					return false
+					return cl
 				}
-				return true
+				return ""
 			}
 			for j := 0; j < n; j++ {
 				style := layerStyle
-				if rapid.IntRange(0, 9).Draw(t, "style_dev") == 0 {
-					style = rapid.SampledFrom(c04Styles).Draw(t, "style")
+				if rapid.IntRange(0, 9).Draw(t, "style_dev") < styleDev {
+					style = rapid.SampledFrom(styles).Draw(t, "style")
 				}
-				if style == tarimg.StyleAbs && col.IsKnown(clsAbsName) {
+				if tarimg.AbsoluteStyle(style) && col.IsKnown(clsAbsName) && !unpackOnly {
 					col.Excluded(clsAbsName)
 					style = tarimg.StyleDot
 				}
@@ -1472,7 +1694,33 @@ func genC04(col *ev.Collector) func(t *rapid.T) c04Case {
 						tryAdd(tarimg.Entry{Kind: tarimg.KindDir, Path: a, Mode: mode, Style: style, Slash: slash})
 					}
 				}
-				tryAdd(e)
+				if e.Kind == tarimg.KindOpaque && forceParents {
+					// the marker needs the directory entry that was to be added with it (it may
+					// have been suppressed as a member of a known class)
+					has := false
+					for _, o := range L.Entries {
+						if op := overlay.Interpret(o); op.Kind == overlay.OpPut && o.Kind == tarimg.KindDir && op.Path == "/"+e.Path {
+							has = true
+						}
+					}
+					if !has {
+						continue
+					}
+				}
+				if cl := tryAdd(e); cl == clsUnpackNameForms {
+					// the entry removes or replaces something written in the other name form
+					// (known finding of the squashed unpack): write it in that form instead
+					if tarimg.AbsoluteStyle(e.Style) {
+						e.Style = tarimg.StylePlain
+					} else {
+						e.Style = tarimg.StyleAbs
+					}
+					tryAdd(e)
+				}
+			}
+			if unpackOnly && rapid.IntRange(0, 3).Draw(t, "root_dir_entry") == 0 {
+				// an entry for the image root itself, as tools that archive "/" write it
+				tryAdd(tarimg.Entry{Kind: tarimg.KindDir, Raw: rapid.SampledFrom([]string{"/", "//", "/."}).Draw(t, "root_name"), Mode: 0o755})
 			}
 			// entry order inside the tar
 			switch rapid.IntRange(0, 3).Draw(t, "order") {
@@ -1503,7 +1751,7 @@ func genC04(col *ev.Collector) func(t *rapid.T) c04Case {
 			// position AFTER the order was fixed, so that its members stay neighbours
 			if dropMode > 0 && rapid.IntRange(0, 2).Draw(t, "drop_group") != 0 {
 				style := layerStyle
-				if style == tarimg.StyleAbs && col.IsKnown(clsAbsName) {
+				if tarimg.AbsoluteStyle(style) && col.IsKnown(clsAbsName) && !unpackOnly {
 					style = tarimg.StyleDot
 				}
 				group := c04DrawDropGroup(t, lower, k, dropMode, &freshName, style)
@@ -1570,6 +1818,13 @@ func genC04(col *ev.Collector) func(t *rapid.T) c04Case {
 				}
 			}
 		}
+		if cs.UseRequirer && col.IsKnown(clsUnpackAbsRelRequirer) {
+			// suppress the class by requiring the affected files in the absolute spelling too
+			if add := c04AbsRelRequired(cs); len(add) > 0 {
+				col.Excluded(clsUnpackAbsRelRequirer)
+				cs.Require = append(cs.Require, add...)
+			}
+		}
 		if cs.UseRequirer && col.IsKnown(clsRequirerUnlinks) {
 			// suppress the class by requiring the affected files as well
 			for i := 0; i < 50; i++ {
@@ -1594,6 +1849,7 @@ func genC04(col *ev.Collector) func(t *rapid.T) c04Case {
 		if rapid.IntRange(0, 2).Draw(t, "size_limit") == 0 && cs.SizeLimit == 0 {
 			cs.SizeLimitSlack = rapid.IntRange(1, 8).Draw(t, "size_limit_slack")
 		}
+		cs.UnpackOnly = unpackOnly && cs.hasAbsName()
 		return cs
 	}
 }
@@ -1603,7 +1859,7 @@ func TestC04_overlay(t *testing.T) {
 	if ev.Replaying() && ev.ReplayLeg() != "" && ev.ReplayLeg() != t.Name() {
 		t.Skip("replay file is for another leg")
 	}
-	ev.Check(t, col, ev.Scale(ev.IntEnv("VERIF_C04_CHECKS", 2000), ev.IntEnv("VERIF_C04_CHECKS", 6000)), genC04(col), propC04)
+	ev.Check(t, col, ev.Scale(ev.IntEnv("VERIF_C04_CHECKS", 2400), ev.IntEnv("VERIF_C04_CHECKS", 7200)), genC04(col), propC04)
 }
 
 // ---------------------------------------------------------------------------------------
